@@ -81,7 +81,7 @@ def dfa_make_total_in_place(D: DFA) -> None:
 
 def dfa_make_total(D: DFA) -> DFA:
     D = copy.deepcopy(D)
-    dfa_make_total(D)
+    dfa_make_total_in_place(D)
     return D
 
 
